@@ -94,6 +94,13 @@ def guarded_literal_index(repo, site):
         if n["k"] != "Index" or n["l"] != site["line"] or n["index"]["k"] != "Lit" or not str(n["index"].get("v", "")).isdigit():
             continue
         k = int(n["index"]["v"])
+        # an element of `.windows(N)` / `.chunks_exact(N)` has exactly N items
+        envs = envs or A.collect_envs(fn)
+        b = A.resolve(n["base"], envs.get(id(n)))
+        while b[0] in ("ref", "deref"):
+            b = b[1]
+        if b[0] == "elem" and b[1][0] == "mcall" and b[1][1] in ("windows", "chunks_exact", "array_windows") and b[1][3] and b[1][3][0][0] == "lit" and str(b[1][3][0][1]).isdigit() and k < int(b[1][3][0][1]):
+            return f"index {k} into an element of .{b[1][1]}({b[1][3][0][1]}): always {b[1][3][0][1]} items long"
         base_txt = "".join(repo.text(fn.file, n["base"]).split()).lstrip("&*")
         best = None
         for g, role in A.guards_of(n, pm):
@@ -117,7 +124,7 @@ def panic_rule(repo, mir, reach, res, rule="PANIC"):
     keep = []
     discharged = collections.Counter()
     for i in inv:
-        why = guarded_literal_index(repo, i) if i["kind"] == "index" and not i.get("mech") else None
+        why = guarded_literal_index(repo, i) if i["kind"] in ("index", "assert:bounds") and not i.get("mech") else None
         if why:
             discharged[group_key(i)] += 1
             res.ok(rule, f"{rule}:{i['owner']}|index|guarded-literal", why, f"{i['file']}:{i['line']}")
